@@ -82,6 +82,7 @@ const bitsetBits = 1 << 26
 type Collector struct {
 	mu          sync.Mutex
 	Property    string
+	Sub         string
 	Evaluations int64
 	NonTrivial  int64 // distinct non-trivial (lower bound, see Distinct)
 	Labels      map[string]int64
@@ -213,7 +214,7 @@ func (c *Collector) Write(e Env) error {
 	if err != nil {
 		return err
 	}
-	return os.WriteFile(filepath.Join(e.OutDir, fmt.Sprintf("stats-%s-%d.json", c.Property, e.Shard)), b, 0o644)
+	return os.WriteFile(filepath.Join(e.OutDir, fmt.Sprintf("stats-%s-%s-%d.json", c.Property, c.Sub, e.Shard)), b, 0o644)
 }
 
 // Violation is the replayable description of one failing case.
